@@ -403,7 +403,30 @@ func glueRuntime(r *Rng, st *Stats, n int) {
 	var cases []rtCase
 	for i := 0; i < n; i++ {
 		v := func() int { return r.Range(1, 50) }
-		switch r.Intn(10) {
+		switch r.Intn(12) {
+		case 10, 11: // enum merged with a namespace of the same name; outer bindings shadowed by the namespace's exports
+			a, b, c2, d, e, f2, g2, i2 := 100+v(), 200+v(), 300+v(), 400+v(), 500+v(), 600+v(), 700+v(), 800+v()
+			kind := r.Pick([]string{"const", "let"})
+			ns := fmt.Sprintf("namespace Level { export %s D = %d; export let o = %d; export function h() { return %d; } export class K { static v = %d; } export const viaEnum = Low0; export const own = D + o; }\n", kind, e, f2, g2, i2)
+			nsRef := fmt.Sprintf("Level.D = %d; Level.o = %d; Level.h = function h() { return %d; }; Level.K = class K { static v = %d; }; Level.viaEnum = Low0; Level.own = Level.D + Level.o;\n", e, f2, g2, i2)
+			// inside the enum body only enum members are in scope: D, h, K are the OUTER bindings
+			en := "enum Level { Low0 = 1, A = D, B = h(), C = K.v, E = A + 1, F = Low0 + 1 }\n"
+			enRef := "Level[Level.Low0 = 1] = \"Low0\"; Level[Level.A = D] = \"A\"; Level[Level.B = h()] = \"B\"; Level[Level.C = K.v] = \"C\"; Level[Level.E = Level.A + 1] = \"E\"; Level[Level.F = 2] = \"F\";\n"
+			en2, en2Ref := "", ""
+			if r.Bool() {
+				// a second enum block: members of the first block are in scope, namespace exports still are not
+				en2 = "enum Level { G = A + D, H = Low0 + 10 }\n"
+				en2Ref = "Level[Level.G = Level.A + D] = \"G\"; Level[Level.H = 11] = \"H\";\n"
+			}
+			outer := fmt.Sprintf("%s D = %d; function h() { return %d; } class K { static v = %d; } const Low0 = %d;\n", r.Pick([]string{"const", "let", "var"}), a, b, c2, d)
+			probe := "$p(\"merge\", Level.A, Level.B, Level.C, Level.E, Level.F, Level[Level.A], Level[Level.B], Level[Level.E], Level.D, Level.o, Level.h(), Level.K.v, Level.viaEnum, Level.own, Level.Low0, Level[1], Level.G, Level.H);\n"
+			var ts, ref string
+			if r.Bool() {
+				ts, ref = outer+ns+en+en2+probe, outer+"var Level = {};\n"+nsRef+enRef+en2Ref+probe
+			} else {
+				ts, ref = outer+en+ns+en2+probe, outer+"var Level = {};\n"+enRef+nsRef+en2Ref+probe
+			}
+			cases = append(cases, rtCase{kind: "enum-namespace-merge-shadowing", ts: ts, ref: ref})
 		case 8, 9: // import-equals aliases of depth 1..4 (executed: an alias that is kept over a type-only root throws)
 			ie := genImportEquals(r)
 			ts := strings.ReplaceAll(ie.p.ts, "export ", "")
@@ -432,11 +455,11 @@ func glueRuntime(r *Rng, st *Stats, n int) {
 		case 1: // namespaces: exported bindings are properties, merging, nested
 			a, b, c := v(), v(), v()
 			ts := fmt.Sprintf(`namespace N { export const a = %d; export function f() { return a + b; } export let b = %d; let hidden = %d; export namespace In { export const d = a + hidden; } }
-namespace N { export const c = a + %d + b; export type T = number; }
+namespace N { export const c = a + %d + b; b = b + 1; b++; export type T = number; }
 $p("ns", N.a, N.f(), N.b, N.c, N.In.d, Object.keys(N).join());
 `, a, b, c, c)
 			ref := fmt.Sprintf(`var N = {}; N.a = %d; N.f = function() { return N.a + N.b; }; N.b = %d; var hidden = %d; N.In = {}; N.In.d = N.a + hidden;
-N.c = N.a + %d + N.b;
+N.c = N.a + %d + N.b; N.b = N.b + 1; N.b++;
 $p("ns", N.a, N.f(), N.b, N.c, N.In.d, Object.keys(N).join());
 `, a, b, c, c)
 			cases = append(cases, rtCase{kind: "namespace", ts: ts, ref: ref})
@@ -536,41 +559,41 @@ func knownDefectReplays(st *Stats) {
 	} else {
 		st.Fail("enum-pow-special-cases-differ-from-ecmascript", map[string]string{"typescript": tsB}, e, "accepted")
 	}
-	// I: an assignment to a variable exported by a sibling block of a merged namespace is not rewritten to a property
-	tsI := "namespace N { export let b = 1; }\nnamespace N { b = b + 1; b++; }\n$p(\"b\", N.b, typeof b);\n"
-	refI := "var N = {}; N.b = 1; N.b = N.b + 1; N.b++;\n$p(\"b\", N.b, typeof b);\n"
+	// I (fixed in /repo by 41c6538, must pass now): an assignment to a variable exported by a sibling block of a merged namespace is not rewritten to a property
+	tsI := "namespace N { export let b = 1; }\nnamespace N { b = b + 1; b++; ({ b } = { b: b * 2 }); [b] = [b + 1]; }\n$p(\"b\", N.b, typeof b);\n"
+	refI := "var N = {}; N.b = 1; N.b = N.b + 1; N.b++; N.b = N.b * 2; N.b = N.b + 1;\n$p(\"b\", N.b, typeof b);\n"
 	if out, e := compileTS(rtCase{ts: tsI}); e == "" {
 		res, err := RunNodeScripts([]string{out, refI}, 3000)
 		if err == nil && !res[0].Same(res[1]) {
-			st.Fail("known-I-write-to-sibling-namespace-export-not-rewritten", map[string]string{"scenario": "known-I", "typescript": tsI, "esbuild_output": out, "reference_js": refI}, res[0].String(), res[1].String())
+			st.Fail("write-to-sibling-namespace-export-not-rewritten", map[string]string{"typescript": tsI, "esbuild_output": out, "reference_js": refI}, res[0].String(), res[1].String())
 		}
 	}
-	// K: an import-equals alias used only as a type inside a namespace body is not erased
+	// K (fixed by 03dfd6f, must pass now): an import-equals alias used only as a type inside a namespace body is not erased
 	tsK := "declare namespace Types { namespace Inner { class Box {} } }\nnamespace App { import Box = Types.Inner.Box; export function f(b?: Box) { return 1; } }\n$p(\"k\", App.f());\n"
 	refK := "var App = {}; App.f = function (b) { return 1; };\n$p(\"k\", App.f());\n"
 	if out, e := compileTS(rtCase{ts: tsK}); e == "" {
 		res, err := RunNodeScripts([]string{out, refK}, 3000)
 		if err == nil && !res[0].Same(res[1]) {
-			st.Fail("known-K-type-only-import-equals-inside-namespace-not-erased", map[string]string{"scenario": "known-K", "typescript": tsK, "esbuild_output": out, "reference_js": refK}, res[0].String(), res[1].String())
+			st.Fail("type-only-import-equals-inside-namespace-not-erased", map[string]string{"typescript": tsK, "esbuild_output": out, "reference_js": refK}, res[0].String(), res[1].String())
 		}
 	}
-	// L: under minify-syntax adjacent import-equals statements are merged and only the first declaration is inspected
+	// L (fixed by cf38a52, must pass now): under minify-syntax adjacent import-equals statements are merged and only the first declaration is inspected
 	tsL := "namespace A { export type T = 1; export const v = 2 }\nimport X = A.T; import Y = A.v;\nlet t: X = Y;\n$p(\"l\", t);\n"
 	refL := "var A = { v: 2 };\nconst Y = A.v;\nlet t = Y;\n$p(\"l\", t);\n"
 	if res := api.Transform(tsL, api.TransformOptions{Loader: api.LoaderTS, LogLevel: api.LogLevelSilent, MinifySyntax: true}); len(res.Errors) == 0 {
 		out := string(res.Code)
 		rr, err := RunNodeScripts([]string{out, refL}, 3000)
 		if err == nil && !rr[0].Same(rr[1]) {
-			st.Fail("known-L-merged-import-equals-under-minify-syntax", map[string]string{"scenario": "known-L", "typescript": tsL, "options": "minify-syntax", "esbuild_output": out, "reference_js": refL}, rr[0].String(), rr[1].String())
+			st.Fail("merged-import-equals-under-minify-syntax", map[string]string{"typescript": tsL, "options": "minify-syntax", "esbuild_output": out, "reference_js": refL}, rr[0].String(), rr[1].String())
 		}
 	}
-	// J: valid JavaScript rejected by the ts loader when lowering to es2015
+	// J (fixed by e63233a, must pass now): valid JavaScript rejected by the ts loader when lowering to es2015
 	jsJ := "x = a ? ([...[1]]) : c;\n"
 	oj := api.TransformOptions{Loader: api.LoaderJS, LogLevel: api.LogLevelSilent, Target: api.ES2015}
 	ot := api.TransformOptions{Loader: api.LoaderTS, LogLevel: api.LogLevelSilent, Target: api.ES2015}
 	if a, ea := transformText(jsJ, oj); ea == "" {
 		if b, eb := transformText(jsJ, ot); eb != "" || a != b {
-			st.Fail("known-J-parenthesised-spread-after-question-rejected-by-ts-loader", map[string]string{"scenario": "known-J", "javascript": jsJ, "options": "target=es2015"}, eb+b, a)
+			st.Fail("parenthesised-spread-after-question-rejected-by-ts-loader", map[string]string{"javascript": jsJ, "options": "target=es2015"}, eb+b, a)
 		}
 	}
 	// H (fixed in /repo by 8c00bb7, must pass now): "===" directly after a type-argument list
